@@ -94,6 +94,59 @@ def journeys (dist : Shape → Shape → Rat) (v : Rat) (c : Coll) : Except Stri
     let fin := (List.range' 1 (c.shapes.length - 1)).foldl (journeyStep dist v c.shapes) (0, [first])
     mkTrack fin.2
 
+/-! ### views of the member list, pairwise differences, `copy` (`collections.py:720-798`)
+
+Tied to the code by the source tie (`Props/C17Src.lean`) and by the `!VIEWS` flag of the harness. -/
+
+/-- `first`: `ValueError` on an empty track, else `self.geoshapes[0]` -/
+def first (c : Coll) : Except String Shape :=
+  match c.shapes with
+  | [] => .error "ERR:Value"
+  | x :: _ => .ok x
+
+/-- `last`: `self.geoshapes[-1]` -/
+def last (c : Coll) : Except String Shape :=
+  match c.shapes.getLast? with
+  | none => .error "ERR:Value"
+  | some x => .ok x
+
+/-- `start`: the start of the first shape -/
+def startT (c : Coll) : Except String Int :=
+  match first c with
+  | .error e => .error e
+  | .ok x => .ok x.startD
+
+/-- `end`: the end of the *last* shape (not the latest end) -/
+def endT (c : Coll) : Except String Int :=
+  match last c with
+  | .error e => .error e
+  | .ok x => .ok x.endD
+
+/-- consecutive members: `zip(self.geoshapes, self.geoshapes[1:])` -/
+def consecutive (c : Coll) : List (Shape × Shape) := c.shapes.zip c.shapes.tail
+
+/-- `time_start_diffs` (microseconds): `ValueError` below two shapes -/
+def timeStartDiffs (c : Coll) : Except String (List Int) :=
+  if c.shapes.length < 2 then .error "ERR:Value"
+  else .ok ((consecutive c).map fun p => p.2.startD - p.1.startD)
+
+/-- `centroid_distances` -/
+def centroidDistances (dist : Shape → Shape → Rat) (c : Coll) : Except String (List Rat) :=
+  if c.shapes.length < 2 then .error "ERR:Value"
+  else .ok ((consecutive c).map fun p => dist p.1 p.2)
+
+/-- `self.geoshapes == other.geoshapes`: same length and pairwise `x is y or x == y` -/
+def sameShapes : List Shape → List Shape → Bool
+  | [], [] => true
+  | x :: xs, y :: ys => sameOrEq x y && sameShapes xs ys
+  | _, _ => false
+
+/-- `__eq__`: the other operand is a Track with an equal member list -/
+def eq (c o : Coll) : Bool := o.tag == .track && sameShapes c.shapes o.shapes
+
+/-- `copy`: `Track(self.geoshapes.copy())` -/
+def copy (c : Coll) : Except String Coll := mkTrack c.shapes
+
 /-! ### operation histories -/
 
 /-- one public operation on a track -/
